@@ -248,7 +248,7 @@ class scrypt(  # type: ignore[misc]
             (params,) = parts
             digest = None
         else:
-            raise uh.exc.MalformedHashError
+            raise uh.exc.MalformedHashError(cls)
 
         # parse params & return
         if len(params) < 11:
